@@ -136,7 +136,32 @@ func genError(t *rapid.T, depth int) genErr {
 		return genLeaf(t)
 	}
 
-	switch rapid.SampledFrom([]string{"chain", "chainmsg", "wrap", "join", "ctx"}).Draw(t, "combinator") {
+	switch rapid.SampledFrom([]string{"chain", "chainmsg", "wrap", "join", "ctx", "chain3"}).Draw(t, "combinator") {
+	case "chain3":
+		// a chain of three: what comes second may be a chain itself (with or without a context), what decides may come last
+		a, b, c := genError(t, depth-1), genError(t, depth-1), genError(t, depth-1)
+
+		// (in half of the cases the kind comes last, after errors which have none - like the errors of a library a step
+		// reported with its own context)
+		if rapid.Bool().Draw(t, "kindComesLast") {
+			a = genErr{Err: errors.New("some foreign error"), Desc: "foreign:plain", Kinds: map[string]bool{}} //nolint:goerr113
+			b = genErr{Err: errors.New("another foreign error"), Desc: "foreign:plain", Kinds: map[string]bool{}} //nolint:goerr113
+
+			switch rapid.IntRange(0, 2).Draw(t, "secondIs") {
+			case 0:
+				b.Err, b.Desc = errorchain.NewWithMessage(b.Err, "nested").WithErrorContext(struct{ X int }{2}), "chainctx(foreign:plain)"
+			case 1:
+				b.Err, b.Desc = errorchain.NewWithMessage(b.Err, "nested"), "chainmsg(foreign:plain)"
+			}
+
+			vkit.S.Label("error.chain_of_three.kind_comes_last")
+		}
+
+		vkit.S.Label("error.chain_of_three")
+
+		return genErr{Err: errorchain.NewWithMessage(a.Err, "first of three").CausedBy(b.Err).CausedBy(c.Err),
+			Desc:  fmt.Sprintf("chain3(%s <- %s <- %s)", a.Desc, b.Desc, c.Desc),
+			Kinds: union(a.Kinds, union(b.Kinds, c.Kinds)), Depth: max(a.Depth, b.Depth, c.Depth) + 1, Redir: firstRedir(firstRedir2(a, b), c)}
 	case "chain":
 		a, b := genError(t, depth-1), genError(t, depth-1)
 
@@ -161,6 +186,14 @@ func genError(t *rapid.T, depth int) genErr {
 		return genErr{Err: errors.Join(a.Err, b.Err), Desc: fmt.Sprintf("join(%s, %s)", a.Desc, b.Desc),
 			Kinds: union(a.Kinds, b.Kinds), Depth: max(a.Depth, b.Depth) + 1, Redir: firstRedir(a, b)}
 	}
+}
+
+func firstRedir2(a, b genErr) genErr {
+	if a.Redir != nil {
+		return a
+	}
+
+	return b
 }
 
 func firstRedir(a, b genErr) *heimdall.RedirectError {
